@@ -14,7 +14,7 @@ REQUIRED_MONITORS = ["markers@stab_plot(function)", "markers@cluster_plot(functi
                      "markers@pLSCF.plot_stab", "markers@pLSCF.plot_cluster", "curves@FDD.plot_CMIF", "marker-order accepted by mpe"]
 ALL_STATES = ["hide_poles=True", "hide_poles=False", "with covariance error bars", "freqlim given", "step=1", "step=2", "step=3", "more rows than orders", "more orders than rows",
               "empty column", "no stable pole", "nSv=all", "nSv<all"]
-REQUIRED_STATES = ["as many spectral lines as singular values (cubic array)", "hide_poles given as a numpy boolean / integer / 0-d array", "nSv=0", "hide_poles=True", "hide_poles=False", "with covariance error bars", "freqlim given", "step=2", "more rows than orders", "more orders than rows", "nSv=all", "nSv<all", "column-major tables",
+REQUIRED_STATES = ["CMIF drawn after an extraction on the same run", "as many spectral lines as singular values (cubic array)", "hide_poles given as a numpy boolean / integer / 0-d array", "nSv=0", "hide_poles=True", "hide_poles=False", "with covariance error bars", "freqlim given", "step=2", "more rows than orders", "more orders than rows", "nSv=all", "nSv<all", "column-major tables",
                    "earlier figures left open", "49 or more pole slots", "several objects of one class and name plotted in one process",
                    "retained poles with a value of exactly zero", "labels stored as bool / int8 / uint8 / int32 / float"]
 RULE = ("random pole / label tables up to 60 orders, non-square, any NaN pattern, labels 0/1, step 1..3 at function level, freqlim, with/without covariance; results "
@@ -264,6 +264,7 @@ def real_runs():
         ss.add_algorithms(a, p, f)
         ss.run_all()
         _CACHE["r"] = (ss, a, p, f, fn)
+        _CACHE["S_val_after_run"] = np.array(f.result.S_val, copy=True)  # what the run stored: the reference for every later diagram
     return _CACHE["r"]
 
 
@@ -328,8 +329,11 @@ def run_classes(ctx, rng):
     if rng.random() < 0.15:
         nSv = 0
         ctx.state("nSv=0")
+    # history: modes were extracted in between - the diagram still shows the singular values of the run
+    ss.mpe("fdd", sel_freq=[float(x) for x in rng.permutation(fn)[: int(rng.integers(1, len(fn) + 1))]], DF=float(rng.choice([0.2, 0.5, 2.0])))
+    ctx.state("CMIF drawn after an extraction on the same run")
     fig, ax = f.plot_CMIF(freqlim=freqlim, nSv=nSv)
-    judge_cmif(ctx, "curves@FDD.plot_CMIF", "FDD_cmif", ax, np.asarray(f.result.S_val), np.asarray(f.result.freq), nSv)
+    judge_cmif(ctx, "curves@FDD.plot_CMIF", "FDD_cmif", ax, _CACHE["S_val_after_run"], np.asarray(f.result.freq), nSv)
     plt.close(fig)
     ctx.state("hide_poles=True" if hide else "hide_poles=False")
     ctx.state("nSv=all" if nSv == "all" else "nSv<all")
